@@ -91,7 +91,7 @@ impl RetryBudgetBuilder {
     /// ```
     pub fn aimd(self) -> AimdBudgetBuilder {
         AimdBudgetBuilder {
-            min_budget: 10,
+            min_budget: None,
             max_budget: 1000,
             deposit_amount: 1,
             withdraw_amount: 1,
@@ -144,7 +144,8 @@ impl TokenBucketBuilder {
 
 /// Builder for AIMD budgets.
 pub struct AimdBudgetBuilder {
-    min_budget: usize,
+    /// `None`: the default floor (10, or the maximum if that is lower)
+    min_budget: Option<usize>,
     max_budget: usize,
     deposit_amount: usize,
     withdraw_amount: usize,
@@ -157,7 +158,7 @@ impl AimdBudgetBuilder {
     /// The budget will never go below this value.
     /// Default: 10
     pub fn min_budget(mut self, min: usize) -> Self {
-        self.min_budget = min;
+        self.min_budget = Some(min);
         self
     }
 
@@ -198,8 +199,10 @@ impl AimdBudgetBuilder {
 
     /// Build the AIMD budget.
     pub fn build(self) -> Arc<dyn RetryBudget> {
+        // The default floor must not exceed a maximum the user set below it
+        let min_budget = self.min_budget.unwrap_or(10.min(self.max_budget));
         Arc::new(AimdBudget::new(
-            self.min_budget,
+            min_budget,
             self.max_budget,
             self.deposit_amount,
             self.withdraw_amount,
